@@ -27,6 +27,10 @@ pub struct Spec {
     /// must be stamped with the time of issue, not with the time the connection started)
     #[serde(default)]
     stall_ms: u64,
+    /// the second connection presents its authentication cookie but no session cookie (the client lost it, or
+    /// never kept it): being routed, it must be given one
+    #[serde(default)]
+    second_without_session: bool,
 }
 
 fn ident(s: &Spec) -> (String, u128) {
@@ -285,6 +289,15 @@ fn judge(s: &Spec, c1: &Case, o1: &Obs, o2: &Obs, o1b: &Obs, bracket: (u64, u64)
     if !matches!(o2.packets.last(), Some((_, Pkt::Transfer { .. }))) {
         bad("second-connection-not-transferred", format!("{:?} {:?}", o2.kinds(), o2.result));
     }
+    // the second connection is routed as well: a session cookie exactly when it presented none
+    let (_, sess2, _) = store_cookies(o2);
+    let second_presented = !s.second_without_session && (s.session || !sess1.is_empty());
+    if second_presented && !sess2.is_empty() {
+        bad("second-connection-session-cookie-overwritten", "the second connection presented a session cookie and was stored another".into());
+    }
+    if !second_presented && sess2.len() != 1 {
+        bad(&format!("second-connection-session-cookie-not-issued:{}", s.second), format!("the second connection ({}) presented no session cookie and was routed, but {} session cookies were stored; packets {:?}", s.second, sess2.len(), o2.kinds()));
+    }
     v
 }
 
@@ -306,7 +319,7 @@ fn specs(thorough: bool) -> Vec<Spec> {
                             for pr in 0..3 {
                                 for t in targets {
                                     for h in hosts {
-                                        v.push(Spec { ident: i.into(), props: pr, target: t.into(), addr: a.into(), secret: sc.into(), session: sess, host: h.into(), second: snd.into(), stall_ms: 0 });
+                                        v.push(Spec { ident: i.into(), props: pr, target: t.into(), addr: a.into(), secret: sc.into(), session: sess, host: h.into(), second: snd.into(), stall_ms: 0, second_without_session: false });
                                     }
                                 }
                             }
@@ -315,7 +328,7 @@ fn specs(thorough: bool) -> Vec<Spec> {
                         // the large domains are rotated against the complete small product
                         for r in 0..3 {
                             let j = k + r * 5;
-                            v.push(Spec { ident: idents[j % 4].into(), props: j % 3, target: targets[(j / 2) % 4].into(), addr: a.into(), secret: sc.into(), session: sess, host: hosts[(j / 3) % 3].into(), second: snd.into(), stall_ms: 0 });
+                            v.push(Spec { ident: idents[j % 4].into(), props: j % 3, target: targets[(j / 2) % 4].into(), addr: a.into(), secret: sc.into(), session: sess, host: hosts[(j / 3) % 3].into(), second: snd.into(), stall_ms: 0, second_without_session: false });
                         }
                         k += 1;
                     }
@@ -324,12 +337,20 @@ fn specs(thorough: bool) -> Vec<Spec> {
         }
     }
     // one history per address family whose second connection comes after the cookie expired (costs real time)
+    // the second connection comes without a session cookie
+    for snd in seconds {
+        for sc in ["none", "64"] {
+            for sess in [false, true] {
+                v.push(Spec { ident: "ascii".into(), props: 1, target: "t".into(), addr: "v4".into(), secret: sc.into(), session: sess, host: "name".into(), second: snd.into(), stall_ms: 0, second_without_session: true });
+            }
+        }
+    }
     for a in addrs {
-        v.push(Spec { ident: "ascii".into(), props: 1, target: "t".into(), addr: a.into(), secret: "64".into(), session: false, host: "name".into(), second: "after-expiry".into(), stall_ms: 0 });
+        v.push(Spec { ident: "ascii".into(), props: 1, target: "t".into(), addr: a.into(), secret: "64".into(), session: false, host: "name".into(), second: "after-expiry".into(), stall_ms: 0, second_without_session: false });
     }
     // first connections on which real time passes before the cookie is issued
     for (a, sc) in [("v4", "64"), ("v6", "1")] {
-        v.push(Spec { ident: "ascii".into(), props: 1, target: "t".into(), addr: a.into(), secret: sc.into(), session: false, host: "name".into(), second: "same".into(), stall_ms: 2_100 });
+        v.push(Spec { ident: "ascii".into(), props: 1, target: "t".into(), addr: a.into(), secret: sc.into(), session: false, host: "name".into(), second: "same".into(), stall_ms: 2_100, second_without_session: false });
     }
     v
 }
@@ -346,7 +367,7 @@ fn run_history(s: &Spec) -> (Case, Obs, Obs, Obs, (u64, u64), (u64, u64)) {
         // expiry 0: the cookie is too old as soon as the wall clock has moved on by a second
         std::thread::sleep(std::time::Duration::from_millis(2100));
     }
-    let stored_session = if s.session { Some(SESSION_JSON.to_vec()) } else { sess1.first().cloned() };
+    let stored_session = if s.second_without_session { None } else if s.session { Some(SESSION_JSON.to_vec()) } else { sess1.first().cloned() };
     let c2 = second_case(s, auth1.first().cloned(), stored_session);
     let t2 = wall_secs();
     let o2 = crate::sim::run(&c2);
@@ -405,7 +426,7 @@ pub fn run(cli: Cli) -> ! {
     rep.set("second_admitted_by_cookie", json!(accepted.load(Ordering::Relaxed)));
     rep.set("second_reauthenticated", json!(reauth.load(Ordering::Relaxed)));
     rep.set("exhaustive", json!(true));
-    rep.set("rule", json!("two-connection histories (the first one run twice for the freshness of the session id): client address family(3) x secret(6) x prior session cookie(2) x second connection(same, other port, other IP, Login intent, same under the largest configurable expiry) complete; identity(4) x properties(3) x target identifier(4) x handshake host/port(3) complete in thorough, rotated in quick; plus three histories whose second connection comes after the expiry (real time). distinct_nontrivial = distinct (first trace, second trace, calls)."));
+    rep.set("rule", json!("two-connection histories (the first one run twice for the freshness of the session id): client address family(3) x secret(6) x prior session cookie(2) x second connection(same, other port, other IP, Login intent, same under the largest configurable expiry) complete; identity(4) x properties(3) x target identifier(4) x handshake host/port(3) complete in thorough, rotated in quick; plus three histories whose second connection comes after the expiry (real time) and 20 whose second connection presents no session cookie (it is routed too and must be given one). distinct_nontrivial = distinct (first trace, second trace, calls)."));
     rep.sample(json!({"spec": all[0]}));
     rep.sample(json!({"spec": all[all.len() - 1], "note": "second connection after expiry (2.1 s of real time, expiry 0)"}));
     rep.assume("on the cookie-authenticated path the presence of a refreshed cookie is not judged (if one is issued it must verify and carry the cookie's identity)");
